@@ -760,6 +760,12 @@ func (c *tcase) batchAdd(si int) {
 		n = rapid.IntRange(13, 48).Draw(c.t, "nbops_big")
 		c.label("batch_with_13_or_more_operations")
 	}
+	// heavy batches: a few dozen values of several KiB each (trie nodes with code blobs, block parts): a backend that
+	// measures a batch in bytes (IdealBatchSize, internal flush thresholds) behaves like a light one below some weight
+	heavy := n >= 13 && rapid.IntRange(0, 5).Draw(c.t, "heavybatch") == 0
+	if heavy {
+		c.label("batch_heavier_than_100KB")
+	}
 	for i := 0; i < n && !c.abort; i++ {
 		var k []byte
 		if len(s.ops) > 0 && rapid.IntRange(0, 9).Draw(c.t, "bk_again") < 4 {
@@ -774,6 +780,9 @@ func (c *tcase) batchAdd(si int) {
 			c.logf("b%d.Delete(%s)", si, hx(k))
 		} else {
 			v = genVal(c.t, "bv")
+			if heavy {
+				v = bytes.Repeat([]byte{rapid.Byte().Draw(c.t, "bv_fill"), byte(i)}, rapid.IntRange(4096, 6144).Draw(c.t, "bv_half"))
+			}
 			c.logf("b%d.Set(%s,%s)", si, hx(k), shortv(v))
 		}
 		labelKey(c, k)
